@@ -395,10 +395,13 @@ func (loader *Loader) visitRef(ref string) {
 }
 
 func (loader *Loader) unvisitRef(ref string, value any) {
-	if value != nil {
+	if v := reflect.ValueOf(value); value != nil && !(v.Kind() == reflect.Ptr && v.IsNil()) {
 		for _, fn := range loader.backtrack[ref] {
 			fn(value)
 		}
+	} else if len(loader.backtrack[ref]) > 0 && loader.kindMismatch == nil {
+		// sites wait for the object this reference leads to, and it led to none
+		loader.kindMismatch = fmt.Errorf("reference %q leads back to itself without reaching an object", ref)
 	}
 	delete(loader.visitedRefs, ref)
 	delete(loader.backtrack, ref)
@@ -720,7 +723,15 @@ func (loader *Loader) resolveHeaderRef(doc *T, component *HeaderRef, documentPat
 					return err
 				}
 				if held.Value == nil {
-					return fmt.Errorf("reference %q leads back to a reference in progress without reaching an object", ref)
+					// the chain leads back to an object that is being resolved: this site is completed together with
+					// it (a chain that never reaches an object is reported when it closes)
+					if loader.shouldVisitRef(held.Ref, func(value any) {
+						if v, ok := value.(*Header); ok {
+							component.Value = v
+						}
+					}) {
+						return fmt.Errorf("reference %q leads to no object", ref)
+					}
 				}
 				component.Value = held.Value
 				component.setRefPath(held.RefPath())
@@ -817,7 +828,15 @@ func (loader *Loader) resolveParameterRef(doc *T, component *ParameterRef, docum
 					return err
 				}
 				if held.Value == nil {
-					return fmt.Errorf("reference %q leads back to a reference in progress without reaching an object", ref)
+					// the chain leads back to an object that is being resolved: this site is completed together with
+					// it (a chain that never reaches an object is reported when it closes)
+					if loader.shouldVisitRef(held.Ref, func(value any) {
+						if v, ok := value.(*Parameter); ok {
+							component.Value = v
+						}
+					}) {
+						return fmt.Errorf("reference %q leads to no object", ref)
+					}
 				}
 				component.Value = held.Value
 				component.setRefPath(held.RefPath())
@@ -916,7 +935,15 @@ func (loader *Loader) resolveRequestBodyRef(doc *T, component *RequestBodyRef, d
 					return err
 				}
 				if held.Value == nil {
-					return fmt.Errorf("reference %q leads back to a reference in progress without reaching an object", ref)
+					// the chain leads back to an object that is being resolved: this site is completed together with
+					// it (a chain that never reaches an object is reported when it closes)
+					if loader.shouldVisitRef(held.Ref, func(value any) {
+						if v, ok := value.(*RequestBody); ok {
+							component.Value = v
+						}
+					}) {
+						return fmt.Errorf("reference %q leads to no object", ref)
+					}
 				}
 				component.Value = held.Value
 				component.setRefPath(held.RefPath())
@@ -1014,7 +1041,15 @@ func (loader *Loader) resolveResponseRef(doc *T, component *ResponseRef, documen
 					return err
 				}
 				if held.Value == nil {
-					return fmt.Errorf("reference %q leads back to a reference in progress without reaching an object", ref)
+					// the chain leads back to an object that is being resolved: this site is completed together with
+					// it (a chain that never reaches an object is reported when it closes)
+					if loader.shouldVisitRef(held.Ref, func(value any) {
+						if v, ok := value.(*Response); ok {
+							component.Value = v
+						}
+					}) {
+						return fmt.Errorf("reference %q leads to no object", ref)
+					}
 				}
 				component.Value = held.Value
 				component.setRefPath(held.RefPath())
@@ -1125,7 +1160,15 @@ func (loader *Loader) resolveSchemaRef(doc *T, component *SchemaRef, documentPat
 					return err
 				}
 				if held.Value == nil {
-					return fmt.Errorf("reference %q leads back to a reference in progress without reaching an object", ref)
+					// the chain leads back to an object that is being resolved: this site is completed together with
+					// it (a chain that never reaches an object is reported when it closes)
+					if loader.shouldVisitRef(held.Ref, func(value any) {
+						if v, ok := value.(*Schema); ok {
+							component.Value = v
+						}
+					}) {
+						return fmt.Errorf("reference %q leads to no object", ref)
+					}
 				}
 				component.Value = held.Value
 				component.setRefPath(held.RefPath())
@@ -1241,7 +1284,15 @@ func (loader *Loader) resolveSecuritySchemeRef(doc *T, component *SecurityScheme
 					return err
 				}
 				if held.Value == nil {
-					return fmt.Errorf("reference %q leads back to a reference in progress without reaching an object", ref)
+					// the chain leads back to an object that is being resolved: this site is completed together with
+					// it (a chain that never reaches an object is reported when it closes)
+					if loader.shouldVisitRef(held.Ref, func(value any) {
+						if v, ok := value.(*SecurityScheme); ok {
+							component.Value = v
+						}
+					}) {
+						return fmt.Errorf("reference %q leads to no object", ref)
+					}
 				}
 				component.Value = held.Value
 				component.setRefPath(held.RefPath())
@@ -1301,7 +1352,15 @@ func (loader *Loader) resolveExampleRef(doc *T, component *ExampleRef, documentP
 					return err
 				}
 				if held.Value == nil {
-					return fmt.Errorf("reference %q leads back to a reference in progress without reaching an object", ref)
+					// the chain leads back to an object that is being resolved: this site is completed together with
+					// it (a chain that never reaches an object is reported when it closes)
+					if loader.shouldVisitRef(held.Ref, func(value any) {
+						if v, ok := value.(*Example); ok {
+							component.Value = v
+						}
+					}) {
+						return fmt.Errorf("reference %q leads to no object", ref)
+					}
 				}
 				component.Value = held.Value
 				component.setRefPath(held.RefPath())
@@ -1365,7 +1424,15 @@ func (loader *Loader) resolveCallbackRef(doc *T, component *CallbackRef, documen
 					return err
 				}
 				if held.Value == nil {
-					return fmt.Errorf("reference %q leads back to a reference in progress without reaching an object", ref)
+					// the chain leads back to an object that is being resolved: this site is completed together with
+					// it (a chain that never reaches an object is reported when it closes)
+					if loader.shouldVisitRef(held.Ref, func(value any) {
+						if v, ok := value.(*Callback); ok {
+							component.Value = v
+						}
+					}) {
+						return fmt.Errorf("reference %q leads to no object", ref)
+					}
 				}
 				component.Value = held.Value
 				component.setRefPath(held.RefPath())
@@ -1441,7 +1508,15 @@ func (loader *Loader) resolveLinkRef(doc *T, component *LinkRef, documentPath *u
 					return err
 				}
 				if held.Value == nil {
-					return fmt.Errorf("reference %q leads back to a reference in progress without reaching an object", ref)
+					// the chain leads back to an object that is being resolved: this site is completed together with
+					// it (a chain that never reaches an object is reported when it closes)
+					if loader.shouldVisitRef(held.Ref, func(value any) {
+						if v, ok := value.(*Link); ok {
+							component.Value = v
+						}
+					}) {
+						return fmt.Errorf("reference %q leads to no object", ref)
+					}
 				}
 				component.Value = held.Value
 				component.setRefPath(held.RefPath())
